@@ -18,7 +18,7 @@ fn m_up(a: u64, al: u64) -> u128 {
     }
 }
 
-fn raw(c: &(u64, u64), obs: &mut Obs) -> CaseResult {
+pub fn raw(c: &(u64, u64), obs: &mut Obs) -> CaseResult {
     let (a, al) = *c;
     let d = outcome(|| x86_64::align_down(a, al));
     let u = outcome(|| x86_64::align_up(a, al));
@@ -50,7 +50,7 @@ fn raw(c: &(u64, u64), obs: &mut Obs) -> CaseResult {
     Ok(())
 }
 
-fn virt(c: &(u64, u8, u64), obs: &mut Obs) -> CaseResult {
+pub fn virt(c: &(u64, u8, u64), obs: &mut Obs) -> CaseResult {
     let (a, lg, bad) = *c;
     let va = VirtAddr::new(a);
     // non powers of two must panic for every form
@@ -91,7 +91,7 @@ fn virt(c: &(u64, u8, u64), obs: &mut Obs) -> CaseResult {
     Ok(())
 }
 
-fn physc(c: &(u64, u8, u64), obs: &mut Obs) -> CaseResult {
+pub fn physc(c: &(u64, u8, u64), obs: &mut Obs) -> CaseResult {
     let (a, lg, bad) = *c;
     let pa = PhysAddr::new(a);
     if !bad.is_power_of_two() {
@@ -156,7 +156,7 @@ fn contain_s<S: PageSize>(v: u64, p: u64, obs: &mut Obs) -> CaseResult {
     Ok(())
 }
 
-fn contain(c: &(u8, u64, u64, bool, bool), obs: &mut Obs) -> CaseResult {
+pub fn contain(c: &(u8, u64, u64, bool, bool), obs: &mut Obs) -> CaseResult {
     let (s, v, p, av, ap) = *c;
     let sz = size_of_sel(s);
     // half of the cases use aligned inputs (the accept side of from_start_address)
